@@ -4,8 +4,8 @@ CONSTANTS Variant = "ok"
  MCP = 7
  MCN = 3
  MCTs = {2, 3}
- MCVs = {1}
- PolyMode = "few"
+ MCVs = {1, 2}
+ PolyMode = "one"
  OrderMode = "free"
  MaxDup = 0
 INVARIANTS TypeOK NoFailure ThresholdIsT Agreement KeyedByShareIdx OwnShareMatches GroupKeyIsSum AnyTRecover AnyTSign BelowThresholdSafe
